@@ -234,9 +234,9 @@ if "C09" in which:
    [remaining w] = client bytes not yet delivered by the transport; acct = the conservation record of Async/ConnReads.v. *)
 From FV Require Import %s%s Async.ReadsWTargets Async.ReadsWProofs.
 From FV Require Import Codec.Varint Codec.NV Codec.Bodies Codec.Vars Parser.ReqWire Parser.ReqTargets Parser.AbsStream Parser.StreamSpec Parser.StreamFinal Parser.EnvCanon
-  Async.PeerTargets Async.PeerTargets2 Async.PeerTargets3 Async.PeerTargets4 Async.BodyTargets Async.BodyProofs.
+  Async.PeerTargets Async.PeerTargets2 Async.PeerTargets3 Async.PeerTargets4 Async.BodyTargets Async.BodyProofs Async.BodyReadsTargets Async.BodyReadsProofs.
 ''' % (PRE, CR)
-    put("C09", "Codec.Varint Codec.NV Codec.Bodies Codec.Vars Parser.ReqWire Parser.ReqTargets Parser.AbsStream Parser.StreamSpec Parser.StreamFinal Parser.EnvCanon Async.PeerTargets Async.PeerTargets2 Async.PeerTargets3 Async.PeerTargets4 Async.PeerProofs4 Async.BodyTargets Async.BodyProofs", [
+    put("C09", "Codec.Varint Codec.NV Codec.Bodies Codec.Vars Parser.ReqWire Parser.ReqTargets Parser.AbsStream Parser.StreamSpec Parser.StreamFinal Parser.EnvCanon Async.PeerTargets Async.PeerTargets2 Async.PeerTargets3 Async.PeerTargets4 Async.PeerProofs4 Async.BodyTargets Async.BodyProofs Async.BodyReadsTargets Async.BodyReadsProofs", [
         ("ONE poll of poll_input, any caller buffer (Some c / fill_buf = None), any transport behaviour: with dl the bytes handed to "
          "the caller, K(before)(remaining) = dl ++ K(after)(remaining'), replies and later streams conserved (acct); by outcome: "
          "Ok(n) with n = |dl| <= c, and Ok(0) for c > 0 only at end-of-stream; errors: a sticky parser error, UnexpectedEof only "
@@ -263,6 +263,13 @@ From FV Require Import Codec.Varint Codec.NV Codec.Bodies Codec.Vars Parser.ReqW
          "request i: nothing of an earlier or later request, nothing missing (run_loop_body = run_loop with a ghost trace: C09_body_trace_is_ghost)",
          "bodies_in_order", "C09_bodies_in_order", ["bodies_in_order_stmt"]),
         ("the ghost trace is a pure addition to Conn.run_loop", "run_loop_body_erase", "C09_body_trace_is_ghost", ["run_loop_body_erase_stmt"]),
+        ("END TO END: at EVERY handler invocation of such a connection (run_loop_inv = run_loop with a ghost trace of script, request state and "
+         "world at each handler start: C09_invocation_trace_is_ghost) the trace law holds for the script that runs - hw_post: every read-side "
+         "operation takes its bytes from the front of what is still to come of the selected stream, a newly selected stream delivers its content "
+         "as of the start of the handler, whatever is written in between and however the run ends - AND the contents it speaks about are those "
+         "of the request the client sent at that position: the handler of request i reads the body of request i", "connection_reads",
+         "C09_connection_reads", ["connection_reads_stmt"]),
+        ("that ghost trace is a pure addition too", "run_loop_inv_erase", "C09_invocation_trace_is_ghost", ["run_loop_inv_erase_stmt"]),
         ("non-vacuity: two keep-alive Responder requests with bodies abc / de: the trace has two entries whose Stdin content to come is abc / de",
          "ex4_body_trace", "C09_bodies_example"),
         ("writeable(): Ok means the gate is open — or the stale case spelled out in the statement (gate closed, final stream "
@@ -329,7 +336,7 @@ if "C10" in which:
     ])
 
 if "C07" in which:
-    put("C07", "Codec.Varint Codec.NV Codec.Vars Parser.ReqWire Parser.ReqTargets Async.ConnTotal Async.ConnReads Async.LoopTargets Async.LoopProofs Async.PeerTargets4 Async.PeerProofs4 Async.LogTargets Async.LogProofs", [
+    put("C07", "Codec.Varint Codec.NV Codec.Vars Parser.ReqWire Parser.ReqTargets Async.ConnTotal Async.ConnReads Async.LoopTargets Async.LoopProofs Async.PeerTargets4 Async.PeerProofs4 Async.LogTargets Async.LogProofs Parser.AbsStream Parser.StreamSpec Parser.StreamFinal Parser.EnvCanon Async.ReadsWTargets Async.PeerTargets Async.PeerTargets2 Async.PeerTargets3 Async.BodyTargets Async.BodyReadsTargets Async.BodyReadsProofs", [
         ("'exactly that request': Token::parse_request IS a read schedule of the request parser whose chunks are the transport reads — "
          "whatever the transport does (any read sizes, Pending, any write pattern)", "parse_request_sched", "C07_parse_request_is_a_schedule", ["parse_request_sched_stmt"]),
         ("a reused connection's parser (leftover L of the previous request in its buffer) behaves exactly like a fresh parser fed L first", "leftover_as_fed", "C07_leftover_as_fed", ["leftover_as_fed_stmt"]),
@@ -356,6 +363,11 @@ if "C07" in which:
          "records, then ONE EndRequest with the invocation's status (the handler's own, or ABORT for the client's abort) and the id "
          "of the request the handler was started with, nothing else -, they are chained (an invocation starts after the previous one "
          "was closed) and the final log extends the last entry", "connection_log", "C07_connection_log", ["connection_log_stmt"]),
+        ("connection REUSE is invisible to the handler (the 'same as on fresh connections' clause, at the async layer): what handler invocation "
+         "i of a connection carrying k requests of the one-outstanding client is started with - request, selected stream, nothing delivered - "
+         "and the content still to come of every input stream equal what the single invocation of a FRESH connection carrying only request i "
+         "is started with and can read, whatever the transports, scripts and readiness patterns of the two connections", "reuse_is_invisible",
+         "C07_reuse_is_invisible", ["reuse_is_invisible_stmt"]),
     ], tail='''(* non-vacuity of C07_handler_sees_exactly_the_request: a concrete connection (B = 160, a GetValues junk record inside
    the preamble, leftover = 5 bytes, two client segments, Pending reads and writes) satisfies every hypothesis *)
 Example C07_handler_sees_example : forall s0 w', lp_run = Ok (inl s0) w' ->
